@@ -1240,3 +1240,9 @@ def check(src, rep, tier):
     rep.guard('C01.R5', r5_element_order, src)
     rep.guard('C01.R8', r8_token_invariants, src)
     rep.guard('C01.R9', r9_duplicate_detection, src)
+    # the stages of the parse pipeline are built once (at import time) by functions that return a nested generator function: such a
+    # stage is a function of its input stream only
+    from . import common
+    rep.need('C01.R10', 1)
+    rep.guard('C01.R10', common.check_closure_factories, src, 'C01.R10', ['_deb822_repro._util', PM, TK],
+              'tokens that a parse left behind (it raised half-way, or its result was not read to the end) are emitted into the next document that is parsed')
